@@ -1,92 +1,96 @@
 import Beetswap.Spec.Wire
 import Beetswap.Spec.Limit
+import Beetswap.Proofs.CodecFrame
 /-!
 Helper lemmas and proofs for the codec layer (C08 codec part, C09, C10, C11).
 The statements used by `Props/` are at the end of this file; they must keep these exact
 statements.
 -/
 namespace Beetswap.Proofs.Codec
+-- some hypotheses of the fixed statements below are not needed by the proofs
+set_option linter.unusedVariables false
 open Beetswap Beetswap.Proto Beetswap.Frame Beetswap.Spec.Wire Beetswap.Spec.Limit
 
-theorem uvar_eq_enc (v : Nat) : uvar v = Varint.enc v := by
-  sorry
+theorem uvar_eq_enc (v : Nat) : uvar v = Varint.enc v :=
+  uvar_eq_enc' v
 
-theorem size_eq_length (m : Message) : sizeMessage m = (encodeBody m).length := by
-  sorry
+theorem size_eq_length (m : Message) : sizeMessage m = (encodeBody m).length :=
+  sizeMessage_eq m
 
-theorem emit_conformant (m : Message) : encodeBody m = serMessage (messageFields m) := by
-  sorry
+theorem emit_conformant (m : Message) : encodeBody m = serMessage (messageFields m) :=
+  encodeBody_eq m
 
 theorem frame_is_length_prefixed (m : Message) :
     encode m = uvar (encodeBody m).length ++ encodeBody m := by
-  sorry
+  unfold encode
+  rw [uvar_eq_enc', sizeMessage_eq]
 
 theorem messageFields_valid (m : Message) (h : MessageWF m)
-    (hs : (encodeBody m).length < 2 ^ 32) : MsgValid (messageFields m) := by
-  sorry
+    (hs : (encodeBody m).length < 2 ^ 32) : MsgValid (messageFields m) :=
+  messageFields_valid' m h hs
 
 theorem interp_messageFields (m : Message) (h : MessageWF m) :
-    interpMessage (messageFields m) = m := by
-  sorry
+    interpMessage (messageFields m) = m :=
+  interpMessage_fields m h
 
 theorem parse_valid_encoding (fs : List MsgFld) (h : MsgValid fs) (rest : List Nat) :
     parseMessage (serMessage fs ++ rest) (serMessage fs).length
-      = .ok (interpMessage fs) rest 0 := by
-  sorry
+      = .ok (interpMessage fs) rest 0 :=
+  parseMessage_ser fs h.1 rest
 
 theorem decode_valid_frame (fs : List MsgFld) (h : MsgValid fs)
     (hs : (serMessage fs).length ≤ maxMessageSize) (rest : List Nat) :
     decode (uvar (serMessage fs).length ++ serMessage fs ++ rest)
-      = .ok (interpMessage fs) rest := by
-  sorry
+      = .ok (interpMessage fs) rest :=
+  decode_valid_frame' fs h hs rest
 
 theorem decode_encode (m : Message) (h : MessageWF m) (hs : (encodeBody m).length < 2 ^ 32)
     (rest : List Nat) :
-    parseMessage (encodeBody m ++ rest) (encodeBody m).length = .ok m rest 0 := by
-  sorry
+    parseMessage (encodeBody m ++ rest) (encodeBody m).length = .ok m rest 0 :=
+  decode_encode' m h hs rest
 
 theorem frame_roundtrip (m : Message) (h : MessageWF m) (hs : sizeMessage m ≤ maxMessageSize)
-    (rest : List Nat) : decode (encode m ++ rest) = .ok m rest := by
-  sorry
+    (rest : List Nat) : decode (encode m ++ rest) = .ok m rest :=
+  frame_roundtrip' m h hs rest
 
 theorem needMore_on_strict_prefix (m : Message) (h : MessageWF m)
     (hs : sizeMessage m ≤ maxMessageSize) (p : List Nat) (hp : p <+: encode m)
-    (hne : p ≠ encode m) : decode p = .needMore := by
-  sorry
+    (hne : p ≠ encode m) : decode p = .needMore :=
+  needMore_on_strict_prefix' m hs p hp hne
 
 theorem chunk_independent (ms : List Message)
     (hwf : ∀ m ∈ ms, MessageWF m ∧ sizeMessage m ≤ maxMessageSize)
     (chunks : List (List Nat)) (hne : ∀ c ∈ chunks, c ≠ [])
     (hcat : chunks.flatten = (ms.map encode).flatten) :
-    (framedRead chunks).msgs = ms ∧ (framedRead chunks).fin = .eof := by
-  sorry
+    (framedRead chunks).msgs = ms ∧ (framedRead chunks).fin = .eof :=
+  chunk_independent' ms hwf chunks hcat
 
 theorem truncated_stream (ms : List Message) (m : Message)
     (hwf : ∀ m' ∈ m :: ms, MessageWF m' ∧ sizeMessage m' ≤ maxMessageSize)
     (p : List Nat) (hp : p <+: encode m) (hp0 : p ≠ []) (hp1 : p ≠ encode m)
     (chunks : List (List Nat)) (hne : ∀ c ∈ chunks, c ≠ [])
     (hcat : chunks.flatten = (ms.map encode).flatten ++ p) :
-    (framedRead chunks).msgs = ms ∧ (framedRead chunks).fin = .err := by
-  sorry
+    (framedRead chunks).msgs = ms ∧ (framedRead chunks).fin = .err :=
+  truncated_stream' ms m hwf p hp hp0 hp1 chunks hcat
 
 theorem oversize_rejected (p : List Nat) (hp : CompleteVarint p)
-    (hv : natValue p > maxMessageSize) (rest : List Nat) : decode (p ++ rest) = .err := by
-  sorry
+    (hv : natValue p > maxMessageSize) (rest : List Nat) : decode (p ++ rest) = .err :=
+  oversize_rejected' p hp hv rest
 
 theorem nonminimal_rejected (p : List Nat) (hp : CompleteVarint p) (hm : ¬ Minimal p)
-    (rest : List Nat) : decode (p ++ rest) = .err := by
-  sorry
+    (rest : List Nat) : decode (p ++ rest) = .err :=
+  nonminimal_rejected' p hp hm rest
 
 theorem overlong_rejected (p : List Nat) (hl : p.length = 10) (hc : ∀ b ∈ p, 128 ≤ b)
-    (rest : List Nat) : decode (p ++ rest) = .err := by
-  sorry
+    (rest : List Nat) : decode (p ++ rest) = .err :=
+  overlong_rejected' p hl hc rest
 
 theorem needMore_bounded (buf : List Nat) (h : decode buf = .needMore) :
-    buf.length < maxMessageSize + 4 := by
-  sorry
+    buf.length < maxMessageSize + 4 :=
+  needMore_bounded' buf h
 
 theorem buffer_bounded (chunks : List (List Nat)) (hc : ∀ c ∈ chunks, c.length ≤ 8192) :
-    (framedRead chunks).maxBuf ≤ maxMessageSize + 4 + 8192 := by
-  sorry
+    (framedRead chunks).maxBuf ≤ maxMessageSize + 4 + 8192 :=
+  buffer_bounded' chunks hc
 
 end Beetswap.Proofs.Codec
